@@ -484,3 +484,36 @@ package emitter
 //@     invariant [C01:if-inv2] i < len(elifChunks) - 1 ==> (pre(*chunkCounter) < prevElifEntryID && prevElifEntryID <= *chunkCounter)
 //@     decreases i + 1
 //@ end
+
+// ---- lowering of switch (C03, C04) ----
+
+//@ pred SwitchStmtOK(stmt *ast.SwitchStatement) = stmt != nil && len(stmt.Cases) >= 0
+//@   && (forall k int :: {stmt.Cases[k]} (0 <= k && k < len(stmt.Cases)) ==> (stmt.Cases[k] != nil && stmt.Cases[k].Body != nil))
+//@   && ((exists k int :: 0 <= k && k < len(stmt.Cases) && stmt.Cases[k].IsDefault) ==> stmt.DefaultCase != nil)
+
+//@ func createSwitchStatementChunks
+//@   requires SwitchStmtOK(stmt) && curChunk != nil && chunkCounter != nil && *chunkCounter >= 0 && 0 <= statementIndex && statementIndex < len(curChunk.statements)
+//@   modifies *chunkCounter, curChunk.returnID
+//@   ensures [C03,C04:switch-fresh] Appended(result0, old(remainingChunks), old(*chunkCounter), *chunkCounter)
+//@   ensures [C03,C04:switch-fresh2] forall j int :: {result0[j]} (len(old(remainingChunks)) <= j && j < len(result0)) ==> (fresh(result0[j]) && ChunkObjsAlloc(result0[j]))
+//@   loop 1
+//@     modifies *chunkCounter, branchBehavior.defaultCase
+//@     invariant [C03,C04:switch-inv] 0 <= i && i <= len(stmt.Cases) && *chunkCounter >= pre(*chunkCounter)
+//@     invariant [C03,C04:switch-inv] len(remainingChunks) == len(pre(remainingChunks)) + (*chunkCounter - pre(*chunkCounter))
+//@     invariant [C03,C04:switch-inv] forall j int :: {remainingChunks[j]} {pre(remainingChunks)[j]} (0 <= j && j < len(pre(remainingChunks))) ==> remainingChunks[j] == pre(remainingChunks)[j]
+//@     invariant [C03,C04:switch-inv] forall j int :: {remainingChunks[j]} (len(pre(remainingChunks)) <= j && j < len(remainingChunks)) ==>
+//@           (remainingChunks[j] != nil && pre(*chunkCounter) < remainingChunks[j].id && remainingChunks[j].id <= *chunkCounter && fresh(remainingChunks[j]) && ChunkObjsAlloc(remainingChunks[j]))
+//@     invariant [C03,C04:switch-inv] forall j int, j2 int :: {remainingChunks[j], remainingChunks[j2]} (len(pre(remainingChunks)) <= j && j < j2 && j2 < len(remainingChunks)) ==> remainingChunks[j].id != remainingChunks[j2].id
+//@     decreases len(stmt.Cases) - i
+//@   loop 2
+//@     modifies *chunkCounter, branchBehavior.defaultCase
+//@     invariant [C03,C04:switch-inv] i + 1 <= j && j <= len(stmt.Cases) && 0 <= i && destChunkID == -1
+//@     invariant [C03,C04:switch-inv] remainingChunks == outer(remainingChunks) && *chunkCounter == outer(*chunkCounter) && i == outer(i)
+//@     decreases len(stmt.Cases) - j
+//@   loop 3
+//@     modifies *chunkCounter, branchBehavior.defaultCase
+//@     invariant [C03,C04:switch-inv] 0 <= i && i <= j && j < len(stmt.Cases) && *chunkCounter == pre(*chunkCounter)
+//@     invariant [C03,C04:switch-inv] len(remainingChunks) == len(pre(remainingChunks))
+//@     invariant [C03,C04:switch-inv] forall q int :: {remainingChunks[q]} (0 <= q && q < len(remainingChunks)) ==> remainingChunks[q] == pre(remainingChunks)[q]
+//@     decreases j - i
+//@ end
